@@ -5,8 +5,8 @@ SPEC = dict(
     cases_thorough=15000,
     level="proof",
     technique="Coq invariant proofs over a Gallina model of GtState / UserGtState / GtExchangeVault and Order::unchecked_process_gt (histories over several users and vaults) + differential correspondence driving the REAL structs (bytemuck-zeroed GtState inside a real Store, UserHeader, GtExchangeVault, GtExchange, Order) through cfg(gmsol_verif) thin wrappers with a stubbed Clock + the property re-evaluated on the observed fields after every operation",
-    text="For every history of mints, burns, fee-driven mints, exchange requests and vault confirmations over several users it is proved that the buyback-able supply equals the sum of user balances (and total minted the sum of per-user totals), total minted never decreases, the minting cost equals the initial cost grown floor(total/step) times (hence independent of how minting was split), the binary search yields the number of thresholds at or below the balance, minting for a USD amount yields floor(value/cost) units with the remainder carried unminted, and a vault is depositable exactly in its own time window and confirmable exactly in a later one.",
-    level_note="Known finding class 1 (ZeroThresholdFreshUser): a rank table with threshold 0 is accepted and a user that never held GT keeps rank 0; the rank theorem is proved for every user that ever received GT and for all users when no threshold is 0. Trusted: Coq kernel + vm_compute; the model is tied to the code on generated histories only; failed operations are rolled back by the driver (transaction atomicity is a runtime fact; the code itself documents unchecked_request_exchange as non-atomic). The cumulative inverse cost factor is modelled and compared but no theorem is stated about it. Event emission is a stubbed CPI.",
+    text="For every history of mints, burns, fee-driven mints, exchange requests and vault confirmations over several users it is proved that the buyback-able supply equals the sum of user balances (and total minted the sum of per-user totals), total minted never decreases, the minting cost equals the initial cost grown floor(total/step) times (hence independent of how minting was split), every user's rank is the number of thresholds at or below the balance (init rejects a zero threshold), minting for a USD amount yields floor(value/cost) units with the remainder carried unminted, and a vault is depositable exactly in its own time window and confirmable exactly in a later one.",
+    level_note="The defect ZeroThresholdFreshUser (a rank table with threshold 0 was accepted, leaving never-minted users with rank 0) is repaired in /repo: GtState::init rejects it, and the rank theorem now holds for all users. Trusted: Coq kernel + vm_compute; the model is tied to the code on generated histories only; failed operations are rolled back by the driver (transaction atomicity is a runtime fact; the code itself documents unchecked_request_exchange as non-atomic). The cumulative inverse cost factor is modelled and compared but no theorem is stated about it. Event emission is a stubbed CPI.",
     design_ref="DESIGN.md section 6, C30",
     explanation="Histories (Mint/Burn/Proc/VInit/Req/Conf over 1-4 users, 3 vaults) + direct get_mint_amount / next_minting_cost / window predicate cases.",
 )
